@@ -241,9 +241,9 @@ mod vx_proofs {
         let len: usize = kani::any();
         kani::assume(len <= L);
         if let Ok(s) = core::str::from_utf8(&bytes[..len]) {
-            let c0 = PERR_CALLS.load(core::sync::atomic::Ordering::Relaxed);
+            let c0 = perr_calls();
             let r = En::from_str(s);
-            let c1 = PERR_CALLS.load(core::sync::atomic::Ordering::Relaxed);
+            let c1 = perr_calls();
             // C18: the user's error function runs exactly once for a rejected input and never for an accepted one
             assert!(c1 - c0 == if r.is_err() && %(custom)s { 1 } else { 0 });
             assert!(r == expected(s));
@@ -261,9 +261,9 @@ mod vx_proofs {
         let mut i = 0;
         while i < L { kani::assume(bytes[i] < 0x80); i += 1; }
         if let Ok(s) = core::str::from_utf8(&bytes[..len]) {
-            let c0 = PERR_CALLS.load(core::sync::atomic::Ordering::Relaxed);
+            let c0 = perr_calls();
             let r = En::from_str(s);
-            let c1 = PERR_CALLS.load(core::sync::atomic::Ordering::Relaxed);
+            let c1 = perr_calls();
             assert!(c1 - c0 == if r.is_err() && %(custom)s { 1 } else { 0 });
             assert!(r == expected(s));
         }
